@@ -229,7 +229,8 @@ PROPS["C09"] = {
                   "reads are compared with the RFC's eager candidate loop (HMAC defined in TLA+); public RFC 6979 signatures must equal SignWithNonce with the "
                   "first RFC candidate.",
     "level_note": "trusted: TLC, BigInt/EcMul/SHA-256 overrides (self-tested), harness logging; TupleHash is uninterpreted (the property does not pin it)",
-    "exhaustive": [{"spec": "MC_Nonce", "params": "mini43"}],
+    "exhaustive": [{"spec": "MC_Nonce", "params": "mini43"},
+                   {"spec": "NonceInd", "engine": "apalache", "files": ["Nonce.tla", "NonceInd.tla"]}],
     "drivers": [{"driver": "nonce", "trace": "Trace_Ecdsa", "shards": 16}],
     "require_classes": {"quick": ["reader_short_reads", "reader_fail_0", "reader_fail_mid", "reader_fail_31", "reader_err_with_last", "reader_ok",
                                   "same_triple", "entropy_one_byte_diff", "constant_entropy_diff_msg", "nil_rand", "wiped_import", "sample_first", "sample_after_zero",
